@@ -101,9 +101,13 @@ RunInputs ==
    {[grid |-> g, calcs |-> c, irred |-> ir, sym |-> sy, restart |-> rs, allow |-> al, dump |-> du, niter |-> ni, fac |-> fa,
      mesh |-> me[1], meshInt |-> me[2], dir |-> di, klpath |-> kl, nkfull |-> IF g = "path" THEN 1 ELSE 4, nkirr |-> IF g = "path" THEN 1 ELSE 3,
      pdiv |-> IF g = "path" THEN 3 ELSE 4] :
-       g \in {"grid", "tetra", "path"}, c \in {"both", "gridonly", "pathonly", "mixed"}, ir \in BOOLEAN, sy \in BOOLEAN, rs \in BOOLEAN,
+       g \in {"grid", "path"}, c \in {"both", "gridonly", "pathonly", "mixed"}, ir \in BOOLEAN, sy \in BOOLEAN, rs \in BOOLEAN,
        al \in BOOLEAN, du \in BOOLEAN, ni \in (IF Thorough THEN {0, 1, 2, 0 - 1, 0 - 3} ELSE {0, 2, 0 - 1}), fa \in (IF Thorough THEN {1, 2} ELSE {1}),
        me \in Meshes, di \in {"absent", "stale", "restartable"}, kl \in {"None", "given"}}
+(* the quick model keeps the full cross product of the flags and slices the independent dimensions *)
+QuickSlice(o) == Thorough \/ ( /\ (o.klpath = "None" => (o.niter = 0 /\ o.meshInt /\ o.mesh = <<2, 2, 2>>))
+                               /\ (o.calcs = "mixed" => (o.niter = 0 /\ o.meshInt))
+                               /\ (o.niter = 0 => (o.meshInt \/ o.mesh = <<>>)) )
 RunInModel(o) == ~NegIterTie(o) /\ ~NegIterNoMesh(o) /\ ~PathRefine(o) /\ ~PathRestart(o)
 RunCall == /\ pc = "in" /\ pc' = "done"
            /\ \E r \in {RunOptions(inp, RunV)} : out' = [r |-> r, failed |-> FailedRunLaws(inp, r)]
@@ -115,7 +119,7 @@ Init == /\ log = <<>> /\ hist = <<>> /\ out = 0
         /\ \/ Part = "ray" /\ pc = "run" /\ inp = 0 /\ w \in Worlds
            \/ Part = "envtab" /\ pc = "in" /\ w = Dummy /\ inp \in {[e |-> e, ucc |-> u] : e \in EnvInputs, u \in BOOLEAN}
            \/ Part = "cluster" /\ pc = "in" /\ w = Dummy /\ inp \in ClusterArgs
-           \/ Part = "runopts" /\ pc = "in" /\ w = Dummy /\ inp \in {o \in RunInputs : RunInModel(o)}
+           \/ Part = "runopts" /\ pc = "in" /\ w = Dummy /\ inp \in {o \in RunInputs : RunInModel(o) /\ QuickSlice(o)}
 Next == \/ Part = "ray" /\ (FirstCall \/ LaterCall)
         \/ Part = "envtab" /\ EnvCall
         \/ Part = "cluster" /\ ClusterCall
